@@ -1740,4 +1740,213 @@ theorem chunkRun_spec {α} (cache : Bool) (nSlice : Nat) (items : List α) (read
   · simp only [chunkRun, if_true]
     exact cacheRun_spec nSlice items none trivial reads
 
+/-! ## Phase 6: pipelines of filters, nested joins -/
+
+
+theorem chainF_append' {α : Type} (fs gs : List (List α → Except Err (List α))) (xs : List α) :
+    chainF (fs ++ gs) xs = (match chainF fs xs with | .ok ys => chainF gs ys | .error e => .error e) := by
+  induction fs generalizing xs with
+  | nil => rfl
+  | cons f fs ih =>
+    simp only [List.cons_append, chainF]
+    cases f xs with
+    | ok ys => exact ih ys
+    | error e => rfl
+
+mutual
+theorem pipe_flat_eq_run' {α : Type} : ∀ (p : Pipe α) (xs : List α), chainF p.filters xs = p.run xs
+  | .one f, xs => by
+    simp only [Pipe.filters, Pipe.run, chainF]
+    cases f xs <;> rfl
+  | .joined ps, xs => by
+    simp only [Pipe.filters, Pipe.run]
+    exact pipe_flatL_eq_runL' ps xs
+theorem pipe_flatL_eq_runL' {α : Type} : ∀ (ps : List (Pipe α)) (xs : List α), chainF (Pipe.filtersL ps) xs = Pipe.runL ps xs
+  | [], xs => by simp [Pipe.filtersL, Pipe.runL, chainF]
+  | p :: ps, xs => by
+    simp only [Pipe.filtersL, Pipe.runL, chainF_append', pipe_flat_eq_run' p xs]
+    cases p.run xs with
+    | ok ys => exact pipe_flatL_eq_runL' ps ys
+    | error e => rfl
+end
+
+theorem chainF_rel' {α : Type} (Rel : List α → List α → Prop) (hrefl : ∀ l, Rel l l)
+    (htrans : ∀ a b c, Rel a b → Rel b c → Rel a c)
+    (fs : List (List α → Except Err (List α))) (hf : ∀ f ∈ fs, ∀ a b, f a = .ok b → Rel b a)
+    (xs ys : List α) (h : chainF fs xs = .ok ys) : Rel ys xs := by
+  induction fs generalizing xs with
+  | nil => simp [chainF] at h; subst h; exact hrefl _
+  | cons f fs ih =>
+    simp only [chainF] at h
+    cases hfx : f xs with
+    | error e => rw [hfx] at h; simp at h
+    | ok zs =>
+      rw [hfx] at h
+      exact htrans _ _ _ (ih (fun g hg => hf g (List.mem_cons_of_mem _ hg)) zs h) (hf f List.mem_cons_self xs zs hfx)
+
+theorem every_sublist' {α} (step : Nat) (l : List α) (k : Nat) : (every step l k).Sublist l := by
+  induction l generalizing k with
+  | nil => simp [every]
+  | cons x xs ih =>
+    cases k with
+    | zero => simp only [every]; exact (ih _).cons_cons x
+    | succ k => simp only [every]; exact (ih k).cons x
+
+theorem take_sublist' {α} (c : Option Nat) (strict : Bool) (xs : List α) : (take c strict xs).Sublist xs := by
+  rw [take_eq_spec']
+  cases c with
+  | none => exact List.Sublist.refl _
+  | some n =>
+    simp only [takeSpec]
+    split
+    · exact List.nil_sublist _
+    · exact List.take_sublist _ _
+
+theorem slice_sublist' {α} (a b : Option Nat) (st : Nat) (xs : List α) : (slice a b st xs).Sublist xs := by
+  unfold slice
+  refine (every_sublist' _ _ _).trans ((List.drop_sublist _ _).trans ?_)
+  cases b with
+  | none => exact List.Sublist.refl _
+  | some n => exact List.take_sublist _ _
+
+theorem whereF_sublist' {α} (fetLen nAct : α → Nat) (ni na nf : Range) (xs : List α) :
+    (whereF fetLen nAct ni na nf xs).Sublist xs := by
+  rw [whereF_eq_spec']
+  cases xs with
+  | nil => exact List.Sublist.refl _
+  | cons x xs =>
+    simp only [whereSpec]
+    split
+    · exact List.filter_sublist
+    · exact List.nil_sublist _
+
+theorem fop_selecting_sublist' {R α : Type} (ops : FloatOps R) (A : Acc α) (nT : Nat) (op : FOp)
+    (hs : op.selecting = true) (xs ys : List α) (h : op.run ops A nT xs = .ok ys) : ys.Sublist xs := by
+  cases op <;> simp [FOp.selecting] at hs <;> simp only [FOp.run, Except.ok.injEq] at h <;> subst h
+  · exact take_sublist' _ _ _
+  · exact slice_sublist' _ _ _ _
+  · exact whereF_sublist' _ _ _ _ _ _
+  · exact List.Sublist.refl _
+
+theorem fop_ordering_perm' {R α : Type} (ops : FloatOps R) (A : Acc α) (nT : Nat) (op : FOp)
+    (hs : op.ordering = true) (xs ys : List α) (h : op.run ops A nT xs = .ok ys) : ys.Perm xs := by
+  cases op <;> simp [FOp.ordering] at hs <;> simp only [FOp.run] at h
+  · cases h; exact pShuffle_perm' _ xs
+  · cases h; exact eShuffle_perm' _ _ _ xs
+  · cases h; exact riffle_perm' _ _ xs
+  · exact sortF_perm' _ _ _ _ _ h
+  · cases h; exact List.Perm.refl _
+
+theorem fop_subperm' {R α : Type} (ops : FloatOps R) (A : Acc α) (nT : Nat) (op : FOp)
+    (xs ys : List α) (h : op.run ops A nT xs = .ok ys) : ys.Subperm xs := by
+  by_cases h1 : op.selecting = true
+  · exact (fop_selecting_sublist' ops A nT op h1 xs ys h).subperm
+  by_cases h2 : op.ordering = true
+  · exact (fop_ordering_perm' ops A nT op h2 xs ys h).subperm
+  cases op <;> simp [FOp.selecting] at h1 <;> simp [FOp.ordering] at h2
+  simp only [FOp.run, reservoirF] at h
+  exact (reservoir_spec' _ _ _ _ _ _ h).1
+
+theorem pipeline_subperm' {R α : Type} (ops : FloatOps R) (A : Acc α) (nT : Nat) (fs : List FOp)
+    (xs ys : List α) (h : pipeline ops A nT fs xs = .ok ys) : ys.Subperm xs := by
+  refine chainF_rel' (fun a b => a.Subperm b) (fun l => List.Subperm.refl l) (fun a b c h1 h2 => h1.trans h2) _ ?_ xs ys h
+  intro f hf a b hab
+  obtain ⟨op, _, rfl⟩ := List.mem_map.1 hf
+  exact fop_subperm' ops A nT op a b hab
+
+theorem pipeline_selecting_sublist' {R α : Type} (ops : FloatOps R) (A : Acc α) (nT : Nat) (fs : List FOp)
+    (hs : ∀ op ∈ fs, op.selecting = true) (xs ys : List α) (h : pipeline ops A nT fs xs = .ok ys) : ys.Sublist xs := by
+  refine chainF_rel' (fun a b => a.Sublist b) (fun l => List.Sublist.refl l) (fun a b c h1 h2 => h1.trans h2) _ ?_ xs ys h
+  intro f hf a b hab
+  obtain ⟨op, hop, rfl⟩ := List.mem_map.1 hf
+  exact fop_selecting_sublist' ops A nT op (hs op hop) a b hab
+
+theorem pipeline_ordering_perm' {R α : Type} (ops : FloatOps R) (A : Acc α) (nT : Nat) (fs : List FOp)
+    (hs : ∀ op ∈ fs, op.ordering = true) (xs ys : List α) (h : pipeline ops A nT fs xs = .ok ys) : ys.Perm xs := by
+  refine chainF_rel' (fun a b => a.Perm b) (fun l => List.Perm.refl l) (fun a b c h1 h2 => h1.trans h2) _ ?_ xs ys h
+  intro f hf a b hab
+  obtain ⟨op, hop, rfl⟩ := List.mem_map.1 hf
+  exact fop_ordering_perm' ops A nT op (hs op hop) a b hab
+
+theorem pipeline_append' {R α : Type} (ops : FloatOps R) (A : Acc α) (nT : Nat) (fs gs : List FOp) (xs : List α) :
+    pipeline ops A nT (fs ++ gs) xs =
+      (match pipeline ops A nT fs xs with | .ok ys => pipeline ops A nT gs ys | .error e => .error e) := by
+  simp only [pipeline, List.map_append, chainF_append']
+
+theorem take_take' {R α : Type} (ops : FloatOps R) (A : Acc α) (nT : Nat) (a b : Nat) (xs : List α) :
+    pipeline ops A nT [.take (some a) false, .take (some b) false] xs = pipeline ops A nT [.take (some (min a b)) false] xs := by
+  simp [pipeline, chainF, FOp.run, take, List.take_take, Nat.min_comm]
+
+/-! ### the interpreter of the pipeline-running method bodies on the model's programs -/
+
+theorem runPipeProgram_filter_model' {α : Type} (fs : List (List α → Except Err (List α))) (input : List α) :
+    runPipeProgram fs input filtersFilterProgram [("items", .ok input)] = some (chainF fs input) := by
+  simp [runPipeProgram, filtersFilterProgram, loopFilters, List.lookup]
+
+theorem runPipeProgram_read_model' {α : Type} (fs : List (List α → Except Err (List α))) (input : List α) :
+    runPipeProgram fs input sourceReadProgram [] = some (chainF fs input) := by
+  simp [runPipeProgram, sourceReadProgram, loopFilters, List.lookup]
+
+/-! ### content preservation along a whole pipeline -/
+
+theorem decorate_map' {α β} (f : α → β) (keyOf : β → Except Err Key) (xs : List α) :
+    decorate keyOf (xs.map f) = (decorate (keyOf ∘ f) xs).map (List.map (fun p => (p.1, f p.2))) := by
+  induction xs with
+  | nil => rfl
+  | cons a l ih =>
+    simp only [List.map_cons, decorate, Function.comp, ih]
+    cases keyOf (f a) with
+    | error e => rfl
+    | ok k =>
+      cases decorate (keyOf ∘ f) l with
+      | error e => rfl
+      | ok r => rfl
+
+theorem sortF_map' {α β} (f : α → β) (hasCtx : β → Bool) (ctx : β → Ctx) (keys : List Val) (xs : List α) :
+    sortF hasCtx ctx keys (xs.map f) = (sortF (hasCtx ∘ f) (ctx ∘ f) keys xs).map (List.map f) := by
+  cases xs with
+  | nil => rfl
+  | cons x xs =>
+    simp only [List.map_cons, sortF, Function.comp]
+    split
+    · rfl
+    · rw [← List.map_cons, decorate_map']
+      have hd : ((fun a => sortKey keys (ctx (f x)).isSparse (ctx a)) ∘ f) = (fun a => sortKey keys (ctx (f x)).isSparse (ctx (f a))) := rfl
+      rw [hd]
+      cases decorate (fun a => sortKey keys (ctx (f x)).isSparse (ctx (f a))) (x :: xs) with
+      | error e => rfl
+      | ok kxs =>
+        simp only [Except.map]
+        have := sortBy_map' (fun (p : Key × α) => (p.1, f p.2)) keyLe (fun (p : Key × β) => p.1) kxs
+        rw [this]
+        simp only [List.map_map]
+        rfl
+
+/-- relabelled accessors -/
+def Acc.comap {α β : Type} (A : Acc β) (f : α → β) : Acc α := ⟨A.isLogged ∘ f, A.hasCtx ∘ f, A.ctx ∘ f, A.nAct ∘ f⟩
+
+theorem fop_map' {R α β : Type} (ops : FloatOps R) (A : Acc β) (f : α → β) (nT : Nat) (op : FOp) (xs : List α) :
+    op.run ops A nT (xs.map f) = (op.run ops (A.comap f) nT xs).map (List.map f) := by
+  cases op <;> simp only [FOp.run, Acc.comap, Except.map, List.length_map]
+  · rw [take_map']
+  · rw [slice_map']
+  · simp only [shuffleSeeded, pShuffle_map']
+  · simp only [eShuffleSeeded, eShuffle_map']
+  · simp only [riffleSeeded, riffle_map']
+  · rw [sortF_map']; rfl
+  · rw [whereF_map']; rfl
+  · rw [reservoirF_map']; rfl
+  · rfl
+
+theorem pipeline_map' {R α β : Type} (ops : FloatOps R) (A : Acc β) (f : α → β) (nT : Nat) (fs : List FOp) (xs : List α) :
+    pipeline ops A nT fs (xs.map f) = (pipeline ops (A.comap f) nT fs xs).map (List.map f) := by
+  induction fs generalizing xs with
+  | nil => rfl
+  | cons op fs ih =>
+    simp only [pipeline, List.map_cons, chainF] at ih ⊢
+    rw [fop_map']
+    cases op.run ops (A.comap f) nT xs with
+    | error e => rfl
+    | ok ys => exact ih ys
+
 end Coba.C09
